@@ -749,10 +749,23 @@ class Walker:
                     return wrap_hook(st, r)
             if name in self.IDENTITY_METHODS and not args:
                 return [Outcome("val", st, recv)]
+            if name in ("ok_or_else", "ok_or", "map_err", "ok", "unwrap_or_default") and isinstance(recv, Sym):
+                return [Outcome("val", st, recv)]
             if name in ("unwrap", "expect"):
                 if isinstance(recv, EnumV) and recv.variant in ("Some", "Ok") and recv.payload:
                     return [Outcome("val", st, recv.payload[0])]
                 return [Outcome("val", st, self.unwrap_val(recv))]
+            if name in ("is_some", "is_none", "is_ok", "is_err") and isinstance(recv, Sym) and not args:
+                uni = ["Some", "None"] if name in ("is_some", "is_none") else ["Ok", "Err"]
+                pos = {"is_some": "Some", "is_none": "None", "is_ok": "Ok", "is_err": "Err"}[name]
+                outs = []
+                s1 = st.restrict(recv.key, allowed=[pos], universe=uni)
+                if s1 is not None:
+                    outs.append(Outcome("val", s1, Const(True)))
+                s2 = st.restrict(recv.key, exclude=[pos], universe=uni)
+                if s2 is not None:
+                    outs.append(Outcome("val", s2, Const(False)))
+                return outs
             if name in ("is_some", "is_none", "is_ok", "is_err") and isinstance(recv, EnumV):
                 truth = recv.variant in {"is_some": ("Some",), "is_none": ("None",), "is_ok": ("Ok",), "is_err": ("Err",)}[name]
                 return [Outcome("val", st, Const(truth))]
